@@ -319,11 +319,15 @@ apply(const mc_op *op)
             (void)file_ro;
             if (id == FAIL) {
                 /* write-mode attach of an object that is already attached elsewhere may be refused by the interface: contract silent */
-                int already = 0;
+                int already = 0, already_w = 0;
                 for (int i = 0; i < M.n; i++)
-                    if (M.e[i].live && M.e[i].kind == kind && M.e[i].obj == obj)
+                    if (M.e[i].live && M.e[i].kind == kind && M.e[i].obj == obj) {
                         already = 1;
-                if ((mode && already) || (kind == K_AID && mode && already)) {
+                        if (M.e[i].mode)
+                            already_w = 1;
+                    }
+                /* ... and so may any further attachment of an object that is attached for writing ("being written, unstable") */
+                if ((mode && already) || (kind == K_AID && mode && already) || already_w) {
                     mc_count("second_write_attachment_refused", 1);
                     break;
                 }
@@ -562,6 +566,8 @@ enum_ops(mc_op *out, int max)
                 if (count_live(K_VS) < 2) {
                     ADD(O_ACQ, K_VS, 0, 0, i);
                     ADD(O_ACQ, K_VS, count_live(K_VS) ? 0 : 1, 0, i);
+                    if (M.e[i].mode)
+                        ADD(O_ACQ, K_VS, 0, 1, i); /* write attachment, also next to a live read attachment of the same Vdata */
                 }
             }
         }
